@@ -10,16 +10,31 @@ BASE = "0accdc9"
 claims = json.load(open(os.path.join(ROOT, "tools", "claims.json")))["claimed"]
 props = sorted(claims)
 
-def findings(repo):
+def run_props(repo, ps):
     ev = tempfile.mkdtemp(prefix="sweepev.")
-    out = subprocess.run([os.path.join(ROOT, "bin", "gqlvet"), "findings"] + props, env=dict(ENV, GQLVET_REPO=repo, GQLVET_EVIDENCE=ev),
+    out = subprocess.run([os.path.join(ROOT, "bin", "gqlvet"), "findings"] + ps, env=dict(ENV, GQLVET_REPO=repo, GQLVET_EVIDENCE=ev),
                          capture_output=True, text=True).stdout
     subprocess.run(["rm", "-rf", ev])
+    return out
+
+def findings(repo):
+    """one process for all properties; a property that produced no DONE marker (the analyser died: stack overflow,
+    out of memory) is re-run alone and, if it dies again, recorded as the finding 'analyser crashed'."""
+    out = run_props(repo, props)
+    done = {l.split()[1] for l in out.splitlines() if l.startswith("DONE ")}
+    lines = [l for l in out.splitlines() if l.startswith("FINDING ") and l.split(" ", 3)[1] in done]
+    for p in props:
+        if p in done:
+            continue
+        o = run_props(repo, [p])
+        if ("DONE " + p) in o:
+            lines += [l for l in o.splitlines() if l.startswith("FINDING ")]
+        else:
+            lines.append("FINDING %s crash analyser crashed" % p)
     res = {}
-    for l in out.splitlines():
-        if l.startswith("FINDING "):
-            _, p, kind, key = l.split(" ", 3)
-            res.setdefault(p, set()).add(key)
+    for l in lines:
+        _, p, kind, key = l.split(" ", 3)
+        res.setdefault(p, set()).add(key)
     return res
 
 _ref = {}
